@@ -266,7 +266,7 @@ class BaseFunctionExecutionContext(ValueContext, TreeContextMixin):
     @recursion.execution_recursion_decorator(default=iter([]))
     def get_yield_lazy_values(self, is_async=False):
         # TODO: if is_async, wrap yield statements in Awaitable/async_generator_asend
-        for_parents = [(y, y.search_ancestor('for_stmt', 'funcdef',
+        for_parents = [(y, y.search_ancestor('for_stmt', 'funcdef', 'lambdef',
                                              'while_stmt', 'if_stmt'))
                        for y in get_yield_exprs(self.inference_state, self.tree_node)]
 
